@@ -110,6 +110,11 @@ func batchSynthModels(r *rand.Rand) []synthModel {
 				{Op: "ReduceMin", Attrs: []Attr{aIs("axes", []int{-1, 1})}, Ins: []string{"x"}, Outs: []string{"n"}},
 				{Op: "ArgMax", Attrs: []Attr{aI("axis", 2), aI("keepdims", 0)}, Ins: []string{"x"}, Outs: []string{"am"}}},
 			Inputs: []mInput{dynInput("x", 3, 4)}, Outputs: []string{"s", "ls", "m", "n", "am"}, Inits: []mInit{{"unused", fTensor(r, []int{2}, 0, 1)}}}},
+		// Softmax over an inner axis only (the tensor library's LAST-axis kernel is the open finding KF-C09-softmax-lastaxis-max): the
+		// batch recorder gives one sample of a batch a logit of 3e8 for this model
+		synthModel{"softmax_inner_axis", mModel{
+			Nodes:  []mNode{{Op: "Softmax", Attrs: []Attr{aI("axis", 1)}, Ins: []string{"x"}, Outs: []string{"s"}}},
+			Inputs: []mInput{dynInput("x", 3, 2)}, Outputs: []string{"s"}, Inits: []mInit{{"unused", fTensor(r, []int{2}, 0, 1)}}}},
 		synthModel{"per_sample_shapes", mModel{
 			Nodes: []mNode{
 				{Op: "Flatten", Attrs: []Attr{aI("axis", 1)}, Ins: []string{"x"}, Outs: []string{"f"}},
